@@ -161,7 +161,7 @@ func newtwkbWriter(
 	}
 
 	w.precXY = precXY
-	w.scalings[0] = math.Pow10(precXY)
+	w.scalings[0] = twkbScaling(precXY)
 	w.scalings[1] = w.scalings[0]
 	w.dimensions = 2
 
@@ -556,7 +556,7 @@ func (w *twkbWriter) writePointArray(numPoints int, coords []float64) {
 	for i := 0; i < numPoints; i++ {
 		for d := 0; d < w.dimensions; d++ {
 			fval := coords[c]
-			scaled := math.Round(fval * w.scalings[d])
+			scaled := math.Round(w.scale(fval, d))
 			if !(scaled >= math.MinInt64 && scaled < math.MaxInt64) && w.err == nil {
 				// Also catches NaN. Converting to int64 would give an arbitrary value.
 				w.err = fmt.Errorf("coordinate %v cannot be represented with the requested TWKB precision", fval)
@@ -651,4 +651,13 @@ func (w *twkbWriter) writeUnsignedVarint(val uint64) {
 
 func (w *twkbWriter) writeHeaderByte(b byte) {
 	w.twkbHeaders = append(w.twkbHeaders, b)
+}
+
+// scale converts a coordinate of dimension d to the (not yet rounded) integer
+// grid value. See twkbScaling.
+func (w *twkbWriter) scale(fval float64, d int) float64 {
+	if d < 2 && w.precXY < 0 {
+		return fval / w.scalings[d]
+	}
+	return fval * w.scalings[d]
 }
